@@ -212,7 +212,10 @@ def cells():
         return ValueError()
 
     bad = {"int": 1, "str": "x", "non-exception class": NotExc, "partial": functools.partial(fn),
-           "callable instance": CallableInstance(), "builtin": len, "tuple of classes": (ValueError, KeyError)}
+           "callable instance": CallableInstance(), "builtin": len, "tuple of classes": (ValueError, KeyError),
+           # invalid values that are falsy (a test like `if not error` must not take them for 'no error given')
+           "zero": 0, "float zero": 0.0, "False": False, "empty str": "", "empty bytes": b"", "empty list": [],
+           "empty tuple": (), "empty dict": {}, "empty set": set()}
     good = {"class": ValueError, "base class": KeyboardInterrupt, "instance": ValueError("x"), "function": fn,
             "lambda": lambda: ValueError(), "bound method": CallableInstance().__call__}
     for dname in ("require", "ensure", "invariant"):
